@@ -29,7 +29,7 @@ func init() { register(propC15{}) }
 func (propC15) ID() string          { return "C15" }
 func (propC15) Imports() []string   { return []string{"Base.Prelude", "Model.Compare", "Run.C15Run"} }
 func (propC15) CheckFn() string     { return "C15Run.check" }
-func (propC15) InputType() string   { return "(gval * gval)" }
+func (propC15) InputType() string   { return "(gval * gval * (string * string))" }
 func (propC15) ObsType() string     { return "Z" }
 func (propC15) Exhaustive(string) bool { return true }
 func (propC15) Rule() string {
@@ -94,19 +94,21 @@ func c15Domain(tier string) []gv {
 	f64 := []float64{0, 1, -1, 0.5, -0.5, 1.5, -1.5, 2, 10, 9, 100, 127, 128, 255, 256, 1e6, 123456, 1234567,
 		9007199254740992, 9007199254740994, -9007199254740992, 0.25, 1e-5, 65535.5, 4294967296, 1e21}
 	if tier == "quick" {
-		f64 = []float64{0, 1, -1, 0.5, 1.5, -1.5, 10, 9, 1e6, 9007199254740992}
+		f64 = []float64{0, 1, -1, 0.5, 1.5, -1.5, 10, 9, 1e6, 9007199254740992, 0.1}
 	}
 	for _, f := range f64 {
 		d = append(d, gv{"float64", strconv.FormatFloat(f, 'x', -1, 64)})
 	}
 	f32 := []float32{0, 1, -1, 0.5, 1.5, -1.5, 2, 10, 256, 16777216}
 	if tier == "quick" {
-		f32 = []float32{0, 1, -1.5, 10, 16777216}
+		f32 = []float32{0, 1, -1.5, 10, 16777216, 0.1, 2.7}
+	} else {
+		f32 = append(f32, 0.1, 2.7, 3.14159)
 	}
 	for _, f := range f32 {
 		d = append(d, gv{"float32", strconv.FormatFloat(float64(f), 'x', -1, 32)})
 	}
-	for _, s := range []string{"", "1", "1.5", "10", "9", "-1", "a", "ab", "abc", "b", "A", "0", "1e+06", "true", "<nil>"} {
+	for _, s := range []string{"", "1", "1.5", "10", "9", "-1", "a", "ab", "abc", "b", "A", "0", "1e+06", "true", "<nil>", "0.1", "2.7", "07", "1.0"} {
 		d = append(d, gv{"string", s})
 	}
 	d = append(d, gv{"nil", ""}, gv{"bool", "true"}, gv{"bool", "false"})
@@ -233,5 +235,6 @@ func (propC15) Observe(raw json.RawMessage) (Observed, error) {
 	if !oka || !okb {
 		return Observed{}, fmt.Errorf("non-finite float in C15 domain")
 	}
-	return Observed{CoqIn: "(" + ca + ", " + cb + ")", CoqObs: coqZi(int64(res)), Note: res}, nil
+	// Go's own %v text of both operands (standard-library oracle, used only outside the modelled class)
+	return Observed{CoqIn: "(" + ca + ", " + cb + ", (" + coqStr(fmt.Sprintf("%v", a)) + ", " + coqStr(fmt.Sprintf("%v", b)) + "))", CoqObs: coqZi(int64(res)), Note: res}, nil
 }
